@@ -293,6 +293,13 @@ def builder_names(ctx, rng, count):
                 probs.append(('sig_constrained_relaxation', so.sig_constrained_relaxation(f, g, [], form=form, p=rng.randint(0, 1), q=rng.randint(1, 2), ell=ell)))
                 probs.append(('poly_relaxation', so.poly_relaxation(p, form=form, poly_ell=ell)))
                 probs.append(('poly_constrained_relaxation', so.poly_constrained_relaxation(p, gp, [], form=form, p=rng.randint(0, 1), q=rng.randint(1, 2), ell=ell)))
+                # the SAME constraint object listed twice (a list assembled from parts that share a constraint)
+                probs.append(('sig_constrained_relaxation (one constraint object listed twice)',
+                              so.sig_constrained_relaxation(f, [g[0], g[1], g[0]], [], form=form, p=rng.randint(0, 1), q=1, ell=0,
+                                                            **({'slacks': True} if form == 'dual' else {}))))
+                probs.append(('poly_constrained_relaxation (one constraint object listed twice)',
+                              so.poly_constrained_relaxation(p, [gp[0], gp[1], gp[0]], [], form=form, p=0, q=1, ell=0,
+                                                             **({'slacks': True} if form == 'dual' else {}))))
             except Exception as e:  # noqa: BLE001
                 ctx.incon('builder raised %s' % type(e).__name__)
     bad = []
